@@ -388,7 +388,8 @@ def backtrack_cut(run, ctx):
     else:
         END = "?"
     # 3. slots already logged for the surviving branch are kept as they are
-    need(re.search(r"for Save\{slot:(\w+),\.\.\} in self\.oldsave\[%s\.\.%s\] \{(\w+)\.insert\(\1\)\}" % (re.escape(START), re.escape(END)), c) is not None,
+    need(re.search(r"for Save\{slot:(\w+),\.\.\} in self\.oldsave\[%s\.\.%s\] \{(\w+)\.insert\(\1\)\}" % (re.escape(START), re.escape(END)), c) is not None
+         or re.search(r"let \w+ = self\.oldsave\[%s\.\.%s\]\.iter\(\)\.map\(\|(\w+)\| \1\.slot\)\.collect\(\)" % (re.escape(START), re.escape(END)), c) is not None,
          "seed-saved", "the slots of the surviving branch's own undo entries must seed the `saved` set")
     # 4. later entries are kept iff their slot is new, compacted in order
     m2 = re.search(r"for (\w+) in %s\.\.len\(self\.oldsave\) \{let Save\{slot:(\w+),\.\.\} = self\.oldsave\[\1\]; let (\w+) = (\w+)\.insert\(\2\); if \3 \{self\.oldsave\.swap\((\w+),\1\); \5 \+= 1\}\}" % re.escape(END), c)
@@ -426,11 +427,42 @@ def atomic_arms(run, ctx):
     if not a:
         run.violation(fam, label, "anchor-missing/FailNegativeLookAround", H.where(fn), "anchor-missing: no arm for FailNegativeLookAround")
     else:
+        # path-based: the arm pops branches; it stops popping exactly when the popped pc is its own pc + 1, and then
+        # fails -- whatever loop form is used
         c = H.canon(a[0]["body"])
-        if not (H.pat_match("loop {let ({p},_) = state.pop(); if ({p} == (1 + pc)) {break}}; break 'fail", c)
-                or H.pat_match("loop {let ({p},_) = state.pop(); if ((1 + pc) == {p}) {break}}; break 'fail", c)):
+        bad = None
+        nexit = 0
+        for p in S.paths_of(a[0]["body"]):
+            pops = [i for i, ev in enumerate(p.events) if ev.kind == "call" and ev.a == "state.pop()"]
+            popvars = set()
+            for ev in p.events:
+                if ev.kind == "let" and (ev.b or "") == "state.pop()":
+                    m = re.match(r"^\((\w+),", ev.a or "")
+                    if m:
+                        popvars.add(m.group(1))
+            eq = None
+            for ev in p.events:
+                if ev.kind != "cond":
+                    continue
+                m = re.match(r"^\((.*) (==|!=) (.*)\)$", ev.a or "")
+                if not m:
+                    continue
+                l, op, r = m.group(1), m.group(2), m.group(3)
+                sides = {l, r}
+                if "(1 + pc)" in sides and (sides - {"(1 + pc)"}) and next(iter(sides - {"(1 + pc)"})) in (popvars | {"state.pop().0"}):
+                    eq = (ev.b if op == "==" else (not ev.b))
+            if p.exit == "loopback":
+                if not pops or eq is not False:
+                    bad = "a loop iteration that does not pop a branch and compare its pc with pc + 1 (%s)" % p.show()[:120]
+            elif p.exit == "break" and p.label == "'fail":
+                nexit += 1
+                if not pops or eq is not True:
+                    bad = "the arm fails without having popped down to its own branch (pc + 1) (%s)" % p.show()[:120]
+            else:
+                bad = "a path leaves the arm by %s instead of failing" % p.exit
+        if bad or nexit < 1:
             run.violation(fam, label, "FailNegativeLookAround", H.where(a[0]),
-                          "FailNegativeLookAround must pop branches until the popped pc is its own pc + 1 and then fail, found %s" % c[:160])
+                          "FailNegativeLookAround must pop branches until the popped pc is its own pc + 1 and then fail: %s; found %s" % (bad or "no failing exit", c[:160]))
         else:
             run.ok(fam, label, H.where(a[0]), 1, "FailNegativeLookAround pops to its own branch (pc + 1), then fails")
 
@@ -650,7 +682,17 @@ def split_jmp_arms(run, ctx):
     if a:
         m = H.pat_match("Insn::Split({x},{y})", H.pat_canon(a[0]["pat"]))
         c = H.canon(a[0]["body"])
-        if not m or not H.pat_match("state.push(%s,ix)?; pc = %s; continue" % (m.group("y"), m.group("x")), c):
+        ok = bool(m)
+        nok = 0
+        if m:
+            for p in S.paths_of(a[0]["body"]):
+                sm = S.Summary(p, ("state.",))
+                if p.exit == "try-err":
+                    ok = ok and sm.calls == ["state.push(%s,ix)" % m.group("y")]
+                    continue
+                nok += 1
+                ok = ok and p.exit == "continue" and sm.calls == ["state.push(%s,ix)" % m.group("y")] and sm.final == {"pc": m.group("x")}
+        if not ok or nok != 1:
             run.violation(fam, label, "Split", H.where(a[0]), "Insn::Split(x, y) must push (y, ix) as the alternative and continue at x (priority order), found %s" % c)
         else:
             run.ok(fam, label, H.where(a[0]), 1, "Split: first operand taken, second pushed")
@@ -660,7 +702,8 @@ def split_jmp_arms(run, ctx):
     if a:
         m = H.pat_match("Insn::Jmp({t})", H.pat_canon(a[0]["pat"]))
         c = H.canon(a[0]["body"])
-        if not m or c != "pc = %s; continue" % m.group("t"):
+        sms = [S.Summary(p, ("state.",)) for p in S.paths_of(a[0]["body"])]
+        if not m or len(sms) != 1 or sms[0].exit != "continue" or sms[0].calls or sms[0].final != {"pc": m.group("t")}:
             run.violation(fam, label, "Jmp", H.where(a[0]), "Insn::Jmp(t) must set pc = t, found %s" % c)
         else:
             run.ok(fam, label, H.where(a[0]), 1, "Jmp")
@@ -674,7 +717,15 @@ def split_jmp_arms(run, ctx):
             continue
         m = H.pat_match("Insn::%s({s})" % var, H.pat_canon(a[0]["pat"]))
         c = H.canon(a[0]["body"])
-        if not m or c != want.replace("{s}", m.group("s")):
+        sms = [S.Summary(p, ("state.",)) for p in S.paths_of(a[0]["body"])]
+        good = False
+        if m and len(sms) == 1 and sms[0].exit == "fall":
+            w_ = want.replace("{s}", m.group("s"))
+            if var == "Restore":
+                good = sms[0].final == {"ix": "state.get(%s)" % m.group("s")} and sms[0].calls == ["state.get(%s)" % m.group("s")]
+            else:
+                good = sms[0].final == {} and sms[0].calls == [w_]
+        if not good:
             run.violation(fam, label, var, H.where(a[0]), "Insn::%s(slot) must be `%s`, found %s" % (var, want, c))
         else:
             run.ok(fam, label, H.where(a[0]), 1, "%s: %s" % (var, c))
@@ -763,6 +814,7 @@ def own_ix(run, ctx):
     POS = [p.get("name") for p in fn["params"]][2]
     approved = [
         ("+=", "codepoint_len_at(s,ix)", "advance by the code point at ix (guarded by ix < len, VMARM/stepping)"),
+        ("+=", "codepoint_len(s[ix])", "the same with the helper written out"),
         ("=", "{endv}", "end of a successful byte-wise literal / backreference comparison"),
         ("=", "state.get({slot})", "Restore: a position saved earlier from ix"),
         ("=", "prev_codepoint_ix(s,ix)", "GoBack: previous code point boundary"),
